@@ -74,7 +74,13 @@ func genCase(t *rapid.T) Case {
 		if aligned {
 			sh.Off = [3]float64{math.Round(sh.Off[0]), math.Round(sh.Off[1]), math.Round(sh.Off[2])}
 		}
-		switch rapid.IntRange(0, 2).Draw(t, "kind") {
+		kind := rapid.IntRange(0, 2).Draw(t, "kind")
+		if kind == 1 && c.CPU > 120 {
+			// marching.Box pads its domain by `strength` WORLD units (0.5 per side), i.e. cpu/2 cells per side:
+			// beyond ~120 cubes per unit one box touches hundreds of 8 MB storage blocks. Bounded by size, not time.
+			kind = 0
+		}
+		switch kind {
 		case 0:
 			sh.Kind, sh.R = "sphere", rapid.Float64Range(2.5, 7).Draw(t, "r")
 		case 1:
